@@ -184,7 +184,8 @@ Inductive irs_ans :=
 | IaProfile (r : res profile)
 | IaCountry (r : res cdata)
 | IaCountries (l : list cdata)
-| IaOpt (o : option addr).
+| IaOpt (o : option addr)
+| IaTrap.
 
 Definition irs_answer (s : irs_state) (q : irs_query) : irs_ans :=
   match q with
@@ -203,5 +204,6 @@ Definition irs_ans_eqb (a b : irs_ans) : bool :=
   | IaCountry x, IaCountry y => res_eqb cdata_eqb x y
   | IaCountries x, IaCountries y => list_eqb cdata_eqb x y
   | IaOpt x, IaOpt y => option_eqb N.eqb x y
+  | IaTrap, IaTrap => true
   | _, _ => false
   end.
